@@ -29,7 +29,9 @@ Types1N == { <<c, e>> : c \in {"list", "vtuple", "deque", "seq"}, e \in Nullable
            \cup { <<"tdict", "TD", << <<"k", e, TRUE>>, <<"o", e, FALSE>> >> >> : e \in NullableElems }
 Inner2 == { t \in Ctor1(RepLeaves, RepKeys) : t[1] \in {"list", "dict", "opt", "tuple", "set", "ntuple", "tdict", "deque", "chainmap", "utuple", "odict"} }
 Types2 == { t \in Ctor1(Inner2, RepKeys) : t[1] \in {"list", "dict", "opt", "tuple", "vtuple", "ntuple", "tdict", "odict", "utuple", "newtype", "mproxy"} }
-Types == IF Depth = 0 THEN Leaves ELSE IF Depth = 1 THEN Types1 \cup Types1N ELSE Types2
+\* PEP 646 star syntax  tuple[X, *tuple[Y, ...], Z]  means the same as Tuple[X, Unpack[Tuple[Y, ...]], Z]
+Types1S == { <<"ustar", <<e>>, <<"int">>, << <<"str">> >> >> : e \in { <<"int">>, <<"str">>, <<"date">>, <<"bool">> } }
+Types == IF Depth = 0 THEN Leaves ELSE IF Depth = 1 THEN Types1 \cup Types1N \cup Types1S ELSE Types2
 FalsyLeaves == { <<"int">>, <<"float">>, <<"bool">>, <<"str">>, <<"bytes">>, <<"timedelta">>, <<"text", "decimal">>, <<"text", "fraction">> }
 AllTypes == Types \cup { Holder(t) : t \in Types } \cup { PlainHolder(t) : t \in Types }
             \cup { FalsyHolder(t, FirstOf(Smp(t))) : t \in Types \cap FalsyLeaves }
